@@ -22,7 +22,7 @@ func TestMain(m *testing.M) {
 			"flag value or another target) and a history of 4-14 operations: edits (source content/same content/revert, directory add/delete/rename/edit, "+
 			"constants within and across classes incl. 256..65535, body and helper code, comments, docstrings, dependency edges, added/removed sources, "+
 			"deleted generated files, flag values, unrelated files) interleaved with builds of arbitrary sub-targets (in process on a fresh Load or in a "+
-			"fresh child process; normal, always, dry, or with a chosen body failing). Every body writes a digest of all its inputs. Oracle: after every "+
+			"fresh child process; normal, always, dry, or with a chosen body of the closure failing) and load-only operations (with or without the index). Every body writes a digest of all its inputs. Oracle: after every "+
 			"build that reports success for X, the output and generated files of every target in X's closure (computed from the spec) are byte-equal to "+
 			"those of a from-scratch build of a copy of the same tree; no body ran twice in one build. Non-trivial = a successful build whose closure had "+
 			"a net input change pending and that was preceded by a partial, failed or dry build since that change, or a hard edit class (256..65535 "+
@@ -67,6 +67,18 @@ func exec(c Case) (v ev.Verdict) {
 	interleaved := false      // a partial / failed / dry build happened while something was dirty
 	classes := map[string]bool{}
 	for n, op := range c.Ops {
+		if op.Kind == "load" {
+			// a fresh load that builds nothing (what `dawn list` and the REPL do); I odd: prefer the index
+			r := sim.Build(projsim.BuildReq{NoRun: true, PreferIndex: op.I%2 == 1})
+			if r.Panic != "" {
+				return ev.Failf("panic", "op %d (load): panic: %s", n, r.Panic)
+			}
+			classes["load-only"] = true
+			if len(dirty) > 0 {
+				interleaved = true
+			}
+			continue
+		}
 		if !op.IsBuild() {
 			info := sim.ApplyEdit(op)
 			if !info.Applied {
@@ -95,7 +107,9 @@ func exec(c Case) (v ev.Verdict) {
 			label = m.Pkgs[m.Targets[id].Pkg] + ":default"
 		}
 		for _, f := range op.Fail {
-			sim.SetFail(m.Targets[live[f%len(live)]].Name(), true)
+			// the failing body is one of the requested target's closure
+			cl := m.Closure(id)
+			sim.SetFail(m.Targets[cl[f%len(cl)]].Name(), true)
 		}
 		req := projsim.BuildReq{Label: label, Always: op.Always, DryRun: op.Dry, PreferIndex: false}
 		var res projsim.BuildResult
@@ -228,10 +242,26 @@ func gen(t *rapid.T) Case {
 		case 0, 1, 2, 3:
 			ops = append(ops, projsim.GenEdit(t, projsim.SemanticEdits()))
 		case 4:
-			ops = append(ops, projsim.GenEdit(t, projsim.NoopEdits()))
+			if rapid.IntRange(0, 2).Draw(t, "loadop") == 2 {
+				ops = append(ops, projsim.Op{Kind: "load", I: rapid.IntRange(0, 1).Draw(t, "lidx")})
+			} else {
+				ops = append(ops, projsim.GenEdit(t, projsim.NoopEdits()))
+			}
 		default:
 			ops = append(ops, projsim.GenBuild(t, true, true, run.Tier == "thorough"))
 		}
+	}
+	if rapid.IntRange(0, 2).Draw(t, "pattern") == 2 {
+		// edit, build with a failing body, a load or build that does not reach it, then the build again
+		x := rapid.IntRange(0, 11).Draw(t, "px")
+		ops = append(ops, projsim.GenEdit(t, projsim.SemanticEdits()))
+		ops = append(ops, projsim.Op{Kind: "build", T: x, Fail: []int{rapid.IntRange(0, 11).Draw(t, "pf")}})
+		if rapid.Bool().Draw(t, "pload") {
+			ops = append(ops, projsim.Op{Kind: "load", I: rapid.IntRange(0, 1).Draw(t, "pidx")})
+		} else {
+			ops = append(ops, projsim.Op{Kind: "build", T: rapid.IntRange(0, 11).Draw(t, "py")})
+		}
+		ops = append(ops, projsim.Op{Kind: "build", T: x})
 	}
 	ops = append(ops, projsim.GenBuild(t, false, false, false))
 	return Case{M: m, Ops: ops}
